@@ -227,11 +227,22 @@ class ModelArray(_np.ndarray):
         if self.mdtype == 'float':
             if isinstance(v, Sym):
                 return Sym(to_real(v.t), 'np')
+        if self.mdtype == 'bool':
+            if isinstance(v, (Sym, NonFinite)):
+                raise HarnessError("symbolic value stored into a boolean array")
+            return bool(v)
         return v
 
     def __setitem__(self, key, value):
-        if self.mdtype is not None and not isinstance(value, (_np.ndarray, list, tuple)):
-            value = self._coerce(value)
+        if self.mdtype is not None:
+            if isinstance(value, (_np.ndarray, list, tuple)):
+                flat = _np.empty(len(value), dtype=object) if not isinstance(value, _np.ndarray) else None
+                if flat is not None and all(not isinstance(v, (list, tuple, _np.ndarray)) for v in value):
+                    for i, v in enumerate(value):
+                        flat[i] = self._coerce(v)       # a row assigned into a typed array is cast element by element
+                    value = flat
+            else:
+                value = self._coerce(value)
         super().__setitem__(key, value)
 
 
@@ -248,7 +259,7 @@ def _model_array(values, shape, mdtype):
 def _mdtype_of(values, dtype=None):
     if dtype is not None:
         k = _np.dtype(dtype).kind
-        return 'int' if k in 'iub' else ('float' if k == 'f' else None)
+        return 'bool' if k == 'b' else ('int' if k in 'iu' else ('float' if k == 'f' else None))
     kinds = set()
     for v in values:
         if isinstance(v, Sym):
@@ -302,7 +313,7 @@ class NumpyShim:
             return _np.zeros(shape, dtype=dtype, **k)
         shp = (shape,) if isinstance(shape, int) else tuple(shape)
         md = _mdtype_of([], dtype)
-        return _model_array(0 if md == 'int' else 0.0, shp, md)
+        return _model_array(False if md == 'bool' else (0 if md == 'int' else 0.0), shp, md)
 
     def ones(self, shape, dtype=float, **k):
         if self._env.mode != 'sym':
@@ -529,6 +540,27 @@ class FloatShim:
         return isinstance(inst, _real_float)
 
 
+class IntShim:
+    """module-global ``int`` replacement: int(Sym) -> truncation toward zero as a symbolic Python int (no forking);
+    anything else -> real int()"""
+
+    def __call__(self, x=0, *a):
+        if isinstance(x, Sym) and not a:
+            t = x.t
+            tr = t if t.sort() == z3.IntSort() else z3.If(t >= 0, z3.ToInt(t), -z3.ToInt(-t))
+            return Sym(tr, 'py')
+        if isinstance(x, NonFinite):
+            raise (ValueError("cannot convert float NaN to integer") if x.kind == 'nan'
+                   else OverflowError("cannot convert float infinity to integer"))
+        return _real_int(x, *a)
+
+    def __instancecheck__(self, inst):   # pragma: no cover
+        return isinstance(inst, _real_int)
+
+
+_real_int = int
+
+
 # --------------------------------------------------------------------------------------------
 # patching ixai modules
 
@@ -545,6 +577,7 @@ def patched(env, modules=None, with_float=True, np_random=None, py_random=None, 
     np_shim = NumpyShim(env, np_random)
     math_shim = MathShim(env)
     float_shim = FloatShim()
+    int_shim = IntShim()
     saved = []
     mods = [m for name, m in list(sys.modules.items())
             if m is not None and (name == IXAI_PREFIX or name.startswith(IXAI_PREFIX + '.'))
@@ -561,6 +594,9 @@ def patched(env, modules=None, with_float=True, np_random=None, py_random=None, 
             had = 'float' in d
             saved.append((d, 'float', d.get('float'), had))
             d['float'] = float_shim
+            had = 'int' in d
+            saved.append((d, 'int', d.get('int'), had))
+            d['int'] = int_shim
     ctx = types.SimpleNamespace(py_random=py_random, np_random=np_random, np=np_shim, math=math_shim)
     try:
         with warnings.catch_warnings():
